@@ -15,7 +15,7 @@
 From Coq Require Import ZArith QArith List Bool Reals.
 From CV Require Import Base.Num Base.RNum C03.ResumeModel C03.ResumeProofs C06.RestraintModel C03.ObjectsModel
   C03.RestraintResume C03.RestraintMachine C03.ObjectsProofs C03.SystemProofs C03.Witness
-  C03.AbfObject C03.AbfResume C03.AbfSystem.
+  C03.AbfObject C03.AbfResume C03.AbfSystem C03.MetaObject C03.MetaResume.
 Import ListNotations.
 Local Open Scope Z_scope.
 
@@ -133,6 +133,25 @@ Theorem C03_abf_with_restraints_resumes :
       (pair_rel (all2 eq) eq).
 Proof. intros T O. exact (abf_sys_resumes O). Qed.
 Print Assumptions C03_abf_with_restraints_resumes.
+
+(* Metadynamics (C05 model of one replica: hills, both grids, hills near the edges, keepHills, well-tempered,
+   with or without grids; state = grids + geometry + the explicit hills), over the reals, grids compared bin
+   by bin.  PARTIAL with respect to the property text: the resumed run is indistinguishable from the run that
+   WROTE THE STATE AND WENT ON, from the step after the stop step (at the re-executed step the resumed run reads
+   from the grids the hills that the other run was still summing analytically: nothing is claimed there).
+   Writing the state is not neutral for this bias (write_state_data projects the pending hills): the run that went
+   on is not the uninterrupted run when gridsUpdateFrequency does not divide newHillFrequency (known finding
+   save-changes-run:meta+pending-hills, shown by the oracle on the implementation).  meta_ok excludes stepZeroData
+   and expandBoundaries. *)
+Theorem C03_metadynamics_resumes_partial :
+  resumes_like_go_on (meta_machine Rops) meta_ok (fun _ _ => True) eq meta_saved_eq /\
+  saves_what_it_loaded (meta_machine Rops) meta_ok meta_saved_eq.
+Proof.
+  pose proof meta_resumable as HR. split.
+  - exact (resumable_resumes _ _ _ _ _ _ _ HR).
+  - exact (resumable_saves _ _ _ _ _ _ _ HR).
+Qed.
+Print Assumptions C03_metadynamics_resumes_partial.
 
 (* ---- non-vacuity ---- *)
 Example C03_ok_satisfiable :
